@@ -926,6 +926,298 @@ def stratum_enforcer_failed_reload(chk, rng, n, seed_cases=()):
     chk.extra["enforcer_failed_reload_cases"] = chk.extra.get("enforcer_failed_reload_cases", 0) + cnt
 
 
+# ---- configuration events after first use ---------------------------------------------------------
+# The matching function of a role definition registered LATE (after assignments and after names were queried),
+# registered a SECOND time, REPLACED by another one, removed again (None); the role manager itself replaced
+# (set_named_role_manager + build_role_links) after the first decision; rebuilds and reloads - anywhere in a history
+# of pattern assignments added, removed and queried through the Enforcer.  SPEC (the property's own sentence): at
+# every query, a name holds a role iff the assignments in force (as the enforcer reports them) grant it under the
+# matching function in force - `grants`, with "the function raised on this pair" counting as "no match"
+# (match_error_handler).  Observed: decisions and has_link only (listings depend on which names were asked about).
+CFG_FUNCS = ["none", "key_match", "key_match2", "key_match3", "regex_match", "glob_match"]
+CFG_PATS = ["/book/:id", "/book/{id}", "/book/*", "/pen/:id"]
+CFG_CONC = ["/book/1", "/book/2", "/pen/1", "alice"]
+CFG_ODD = ["+pen", "?book"]         # stored names on which the regex-compiling matching functions RAISE when tried as a pattern
+CFG_ROLES = ["book_group", "pen_group", "admin"]
+CFG_USERS_DOM = ["alice", "bob", "carol"]
+CFG_ADOMS = ["d1", "d2", "*", "d*"]
+CFG_QDOMS = ["d1", "d2", "e1"]      # domains in which requests are made: every pool function says they match themselves
+CFG_DFUNCS = ["none", "key_match", "regex_match", "glob_match"]
+_CFG_MF = {}
+
+
+def cfg_fn(name):
+    from casbin import util
+    return None if name == "none" else getattr(util, name)
+
+
+def cfg_mf(name):
+    """the matching function as the SPEC sees it: a boolean relation, an exception = no match, none = nothing matches"""
+    if name not in _CFG_MF:
+        f, memo = cfg_fn(name), {}
+
+        def mf(a, b, f=f, memo=memo):
+            if f is None:
+                return False
+            if (a, b) not in memo:
+                memo[(a, b)] = _safe(f, a, b)
+            return memo[(a, b)]
+        _CFG_MF[name] = mf
+    return _CFG_MF[name]
+
+
+def cfg_overlap(pool, names, doms, l, l2):
+    """two assignments of the SAME role that some name (in some domain) could hold through both - under any function of
+    the pool: deleting one of them is the listed finding, so the generator never has both in force"""
+    if l[1] != l2[1]:
+        return False
+    if len(l) > 2:
+        dfs = [cfg_mf(f) for f in pool]
+        if not any((dq == l[2] or any(f(dq, l[2]) for f in dfs)) and (dq == l2[2] or any(f(dq, l2[2]) for f in dfs)) for dq in doms):
+            return False
+        return l[0] == l2[0]
+    fs = [cfg_mf(f) for f in pool]
+    return any((x == l[0] or any(f(x, l[0]) for f in fs)) and (x == l2[0] or any(f(x, l2[0]) for f in fs)) for x in names)
+
+
+def cfg_execute(c, upto=None):
+    """-> (observations, violations [(op index, expected, what)]); stops at the first violation"""
+    import casbin
+    from casbin.model import Model
+    from casbin.rbac import default_role_manager as drm
+    from ..mgmt import RecAdapter
+    dom = c["kind"] == "cfg-edm"
+    pt = "g" if dom else c.get("pt", "g2")
+    roles = c["roles"]
+    m = Model()
+    m.load_model_from_text(EDM_TEXT if dom else ERM_TEXT)
+    if dom:
+        prow = [("p", [r, d, "o_" + r, "read"]) for r in roles for d in CFG_QDOMS]
+    elif pt == "g2":
+        prow = [("p", ["u", r, "act_" + r]) for r in roles]
+    else:
+        prow = [("p", [r, "obj", "act_" + r]) for r in roles]
+    ad = RecAdapter(prow + [(pt, list(l)) for l in c.get("initial", [])])
+    e = casbin.Enforcer(m)
+    e.set_adapter(ad)
+    cur = dict(mf=c.get("mf0", "none"), dmf=c.get("dmf0", "none"))
+    if cur["mf"] != "none":
+        e.add_named_matching_func(pt, cfg_fn(cur["mf"]))
+    if cur["dmf"] != "none":
+        e.add_named_domain_matching_func(pt, cfg_fn(cur["dmf"]))
+    e.load_policy()
+    obs, bad = [], []
+    ops = c["ops"] if upto is None else c["ops"][:upto]
+    for i, op in enumerate(ops):
+        k = op[0]
+        try:
+            if k == "add":
+                obs.append([0, int(bool(e.add_named_grouping_policy(pt, *op[1:])))])
+            elif k == "del":
+                inforce = list(op[1:]) in [list(x) for x in e.get_named_grouping_policy(pt)]
+                try:
+                    obs.append([0, int(bool(e.remove_named_grouping_policy(pt, *op[1:])))])
+                except Exception as exc:  # noqa
+                    obs.append([999, classify_exception(exc)])
+                    if inforce:
+                        bad.append((i, [0, 1], "removing an assignment in force raised"))
+                    return obs, bad
+            elif k in ("enforce", "has"):
+                x, r = op[1], op[2]
+                d = op[3] if dom else None
+                force = [tuple(l) for l in e.get_named_grouping_policy(pt)]
+                if k == "has":
+                    got = e.get_named_role_manager(pt).has_link(x, r, *([d] if dom else []))
+                elif dom:
+                    got = e.enforce(x, d, "o_" + r, "read")
+                elif pt == "g2":
+                    got = e.enforce("u", x, "act_" + r)
+                else:
+                    got = e.enforce(x, "obj", "act_" + r)
+                obs.append([0, int(bool(got))])
+                if dom:
+                    dmf = cfg_mf(cur["dmf"])
+                    S = [(l[0], l[1]) for l in force if len(l) == 3 and (l[2] == d or dmf(d, l[2]))]
+                else:
+                    S = [(l[0], l[1]) for l in force if len(l) == 2]
+                exp = [0, int(grants(S, cfg_mf(cur["mf"]), x, r, L_DEFAULT - 1))]
+                if obs[-1] != exp:
+                    bad.append((i, exp, ("the decision" if k == "enforce" else "has_link") + " differs from the grants of the assignments in "
+                                        "force under the matching function in force (configured after first use)"))
+                    return obs, bad
+            elif k == "setmf":
+                e.add_named_matching_func(pt, cfg_fn(op[1]))
+                cur["mf"] = op[1]
+                obs.append([0, []])
+            elif k == "setdmf":
+                e.add_named_domain_matching_func(pt, cfg_fn(op[1]))
+                cur["dmf"] = op[1]
+                obs.append([0, []])
+            elif k == "swaprm":
+                rm = drm.DomainManager(L_DEFAULT) if dom else drm.RoleManager(L_DEFAULT)
+                if op[1] != "none":
+                    rm.add_matching_func(cfg_fn(op[1]))
+                if dom and op[2] != "none":
+                    rm.add_domain_matching_func(cfg_fn(op[2]))
+                e.set_named_role_manager(pt, rm)
+                e.build_role_links()
+                cur["mf"] = op[1]
+                if dom:
+                    cur["dmf"] = op[2]
+                obs.append([0, []])
+            elif k == "build":
+                e.build_role_links()
+                obs.append([0, []])
+            elif k == "reload":
+                e.load_policy()
+                obs.append([0, []])
+            else:
+                obs.append([998])
+        except Exception as exc:  # noqa
+            obs.append([999, classify_exception(exc)])
+            if k in ("enforce", "has"):
+                bad.append((i, "an answer", "a query raised"))
+            return obs, bad
+    return obs, bad
+
+
+def cfg_f14(c, idx):
+    """the listed finding's fingerprint on this stratum's histories (never generated; kept for shrunk cases)"""
+    dom = c["kind"] == "cfg-edm"
+    pool = c["dpool"] if dom else c["pool"]
+    names = set(c["names"]) | set(c["roles"])
+    force = [tuple(l) for l in c.get("initial", [])]
+    for op in c["ops"][:idx + 1]:
+        if op[0] == "add" and tuple(op[1:]) not in force:
+            force.append(tuple(op[1:]))
+        elif op[0] == "del" and tuple(op[1:]) in force:
+            force.remove(tuple(op[1:]))
+            if any(cfg_overlap(pool, names, CFG_QDOMS, tuple(op[1:]), l2) for l2 in force):
+                return True
+    return False
+
+
+def cfg_cases(rng, n):
+    for _ in range(n):
+        dom = rng.random() < 0.3
+        roles = list(CFG_ROLES)
+        if dom:
+            dpool = ["none"] + rng.sample(CFG_DFUNCS[1:], rng.randint(1, 2))
+            pool = ["none"]
+            users = list(CFG_USERS_DOM)
+            names = users
+            qnames = users + roles[:1]
+            c = dict(kind="cfg-edm", dpool=dpool, dmf0=rng.choice(dpool) if rng.random() < 0.5 else "none")
+        else:
+            while True:
+                pool = ["none"] + rng.sample(CFG_FUNCS[1:], rng.randint(1, 3))
+                pats = rng.sample(CFG_PATS, rng.randint(1, 3))
+                conc = rng.sample(CFG_CONC, rng.randint(2, 4))
+                odd = rng.sample(CFG_ODD, rng.choice([0, 0, 1, 1, 2]))
+                names = pats + conc + odd
+                users = pats + conc[:2] + odd
+                alln = set(names) | set(roles)
+                adds = {(u, r) for u in users + roles for r in roles if u != r}
+                if all(scope_ok(cfg_mf(f), alln, adds) for f in pool):
+                    break
+            qnames = conc + odd + pats[:1] + roles[:1]
+            c = dict(kind="cfg-erm", pt=rng.choice(["g2", "g2", "g"]), pool=pool, mf0=rng.choice(pool) if rng.random() < 0.5 else "none")
+        alln = set(names) | set(roles)
+        force = []
+
+        def new_link():
+            for _t in range(6):
+                u = rng.choice(users + ([rng.choice(roles)] if rng.random() < 0.25 else []))
+                r = rng.choice(roles)
+                l = (u, r, rng.choice(CFG_ADOMS)) if dom else (u, r)
+                if u == r or l in force:
+                    continue
+                if any(cfg_overlap(dpool if dom else pool, alln, CFG_QDOMS, l, l2) for l2 in force):
+                    continue
+                return l
+            return None
+
+        initial = []
+        for _k in range(rng.randint(0, 3)):
+            l = new_link()
+            if l:
+                force.append(l)
+                initial.append(list(l))
+        ops = []
+
+        def query():
+            q = [rng.choice(["enforce", "enforce", "has"]), rng.choice(qnames), rng.choice(roles)]
+            return q + ([rng.choice(CFG_QDOMS)] if dom else [])
+
+        for _k in range(rng.randint(6, 26)):
+            x = rng.random()
+            if x < 0.28:
+                l = new_link()
+                if l:
+                    force.append(l)
+                    ops.append(["add"] + list(l))
+            elif x < 0.43:
+                if force:
+                    l = rng.choice(force)
+                    force.remove(l)
+                    ops.append(["del"] + list(l))
+            elif x < 0.73:
+                ops.append(query())
+            elif x < 0.87:
+                ops.append(["setdmf", rng.choice(dpool)] if dom else ["setmf", rng.choice(pool)])
+            elif x < 0.94:
+                ops.append(["swaprm", "none", rng.choice(dpool)] if dom else ["swaprm", rng.choice(pool)])
+            else:
+                ops.append([rng.choice(["build", "reload"])])
+        for xn in qnames:
+            for r in roles:
+                for d in (CFG_QDOMS if dom else [None]):
+                    if rng.random() < (0.5 if dom else 0.8):
+                        ops.append(["enforce", xn, r] + ([d] if dom else []))
+        yield dict(c, stratum="config-events", names=names, roles=roles, initial=initial, ops=ops)
+
+
+def cfg_shrink(c, idx):
+    cur = dict(c, ops=c["ops"][:idx + 1])
+    for key in ("ops", "initial"):
+        i = len(cur[key]) - (2 if key == "ops" else 1)
+        while i >= 0:
+            trial = dict(cur, **{key: cur[key][:i] + cur[key][i + 1:]})
+            try:
+                _, b = cfg_execute(trial)
+            except Exception:  # noqa
+                b = []
+            if b and b[-1][0] == len(trial["ops"]) - 1:
+                cur = trial
+            i -= 1
+    return cur
+
+
+def stratum_config_events(chk, rng, n):
+    cnt = reported = 0
+    per = {}
+    for c in cfg_cases(rng, n):
+        obs, bad = cfg_execute(c)
+        cnt += 1
+        per[c["kind"]] = per.get(c["kind"], 0) + 1
+        events = [o for o in c["ops"] if o[0] in ("setmf", "setdmf", "swaprm", "build", "reload")]
+        nontriv = events and any(o[0] == "add" for o in c["ops"]) or c["initial"]
+        chk.count(("config-events", c["kind"], repr(c["initial"]), repr(c["ops"])) if nontriv else None,
+                  n=max(1, sum(1 for o in c["ops"] if o[0] in ("enforce", "has"))))
+        chk.traces += 1
+        if cnt % 97 == 1:
+            chk.sample(dict(case=dict(c, ops=c["ops"][:12] + ["..."]), impl=obs[:12]))
+        if bad and reported < 2:
+            small = cfg_shrink(c, bad[0][0])
+            so, sb = cfg_execute(small)
+            if sb:
+                c, obs, bad = small, so, sb
+            reported += 1
+            chk.spec_fail(c, obs, dict(op_index=bad[0][0], expected=bad[0][1]), bad[0][2],
+                          finding=FINDING if cfg_f14(c, bad[0][0]) else None)
+    chk.extra["config_events_cases"] = dict(per, total=chk.extra.get("config_events_cases", {}).get("total", 0) + cnt)
+
+
 def run(chk, tier):
     rng = chk.rng
     thorough = tier == "thorough"
@@ -956,8 +1248,10 @@ def run(chk, tier):
     stratum_function_replaced(chk, rng, 3000 if thorough else 300)
     stratum_enforcer_reload_keeps_function(chk)
     stratum_enforcer_failed_reload(chk, rng, 6000 if thorough else 600)
+    stratum_config_events(chk, rng, 6000 if thorough else 700)
     chk.exhaustive = True
-    chk.extra["strata"] = dict(state["strata"], enforcer_failed_reload=chk.extra.get("enforcer_failed_reload_cases", 0))
+    chk.extra["strata"] = dict(state["strata"], enforcer_failed_reload=chk.extra.get("enforcer_failed_reload_cases", 0),
+                               config_events=chk.extra.get("config_events_cases", {}).get("total", 0))
     chk.extra["histories_per_manager"] = state["kinds"]
     chk.extra["histories_showing_the_listed_finding"] = state["f14"]
     chk.rule += ("; concurrent stratum: two threads issuing first queries about never-seen names on one RoleManager / "
@@ -1002,6 +1296,20 @@ def replay(chk):
             sys.exit(1)
         print("replay passes: after the reload every name holds exactly the roles the assignments in force give it")
         sys.exit(0)
+    if c.get("stratum") == "config-events":
+        obs, bad = cfg_execute(c)
+        print(f"replay (configuration events after first use): kind={c['kind']} initial={c.get('initial')} calls={c['ops']}")
+        print(f"  impl ={obs}")
+        if bad:
+            i, exp, what = bad[0]
+            print(f"  call {i} {c['ops'][i]}: implementation {obs[i] if i < len(obs) else None}, spec {exp}: {what}")
+            if cfg_f14(c, i) and listed_finding_case(chk) is not None:
+                print(f"KNOWN-FINDING: property={chk.prop} {FINDING}")
+                sys.exit(0)
+            print(f"VIOLATION property={chk.prop} replay={chk.replay_file}")
+            sys.exit(1)
+        print("replay passes: every answer is the grants of the assignments in force under the matching function in force")
+        sys.exit(0)
     if "ops" not in c:
         print("replay file names a broken theorem/correspondence, not an input:", json.dumps(rec.get("broken"))[:800])
         sys.exit(1)
@@ -1043,7 +1351,15 @@ def main():
         "all_roles / the edge sets included) with the extracted model.  Out-of-scope histories (second-position "
         "patterns, a name breaking transitivity, repeated adds, clear, re-registration, a non-reflexive domain "
         "matcher) are run for the model tie only.  Non-trivial: at least one assignment and one has_link query "
-        "between different names; distinct by (manager, flags, call sequence).")
+        "between different names; distinct by (manager, flags, call sequence).  Configuration-events stratum (spec only): "
+        "through an Enforcer (g2 or g pattern assignments; g with domains), histories of add / remove / decision / has_link "
+        "interleaved with configuration events AFTER first use - the (domain) matching function registered late, a second "
+        "time, replaced by another of key_match / key_match2 / key_match3 / regex_match / glob_match, removed (None), the role "
+        "manager replaced (set_named_role_manager + build_role_links), build_role_links, load_policy - over 4 patterns, 4 "
+        "concrete names, 2 stored names on which the regex-compiling functions raise, 3 roles, domains d1 d2 * d* (queried: "
+        "d1 d2 e1); every answer = grants of the assignments the enforcer reports under the function in force (a raising "
+        "pair = no match); universes are drawn so that every function of the case's pool is in the theorems' scope and no "
+        "two assignments in force share a grant (listed finding).")
     chk.assumptions = [
         "what a concrete matching function answers is C13; here matching functions are arbitrary boolean functions "
         "(exceptions count as False, as match_error_handler does); the oracle receives their truth tables on the universe",
